@@ -145,9 +145,12 @@ var c05ErrClasses = []struct {
 	{regexp.MustCompile(`cannot extend service .*: no services section`), "noServices"},
 	{regexp.MustCompile(`cannot extend service .*: service .* not found in `), "notFoundInFile"},
 	{regexp.MustCompile(`cannot extend service .*: service .* not found`), "notFound"},
+	{regexp.MustCompile(`^services\..*\.extends\.service must be a string`), "extendsServiceNotString"},
+	{regexp.MustCompile(`^services\..*\.extends\.file must be a string`), "extendsFileNotString"},
 	{regexp.MustCompile(`^services must be a mapping`), "servicesNotMapping"},
 	{regexp.MustCompile(`^services\..* must be a mapping`), "serviceNotMapping"},
 	{regexp.MustCompile(`cannot override `), "cannotOverride"},
+	{regexp.MustCompile(`^\S+: unexpected type `), "unexpectedType"}, // override: "<path>: unexpected type %T" (the special mergers, since C04's repairs)
 	{regexp.MustCompile(`no such file or directory`), "noFile"},
 	{regexp.MustCompile(`^unexpected type |invalid mount config for type`), "resolveErr"},
 }
@@ -274,8 +277,16 @@ func c05FS(ctx context.Context, opts *loader.Options, wdAbs, mainAbs string, dic
 			})
 			entry = res
 			if m, ok := res.(map[string]any); ok {
-				if site, p := m["panic"]; p {
+				if site, p := m["panic"].(string); p {
 					entry = map[string]any{"panic": site}
+					if strings.Contains(site, "relativePathsResolver") {
+						// ResolveRelativePaths panicked: that is after the services / base-present checks
+						stub := map[string]any{}
+						for _, n := range names {
+							stub[n] = map[string]any{}
+						}
+						entry = map[string]any{"ok": core.EncodeVal(map[string]any{"services": stub}), "rpanic": site}
+					}
 				}
 			}
 			table = append(table, []any{ref, entry})
@@ -317,24 +328,37 @@ type c05ApplyReal struct {
 	Main string          `json:"main"`
 }
 
-func c05MemberOf(out json.RawMessage, outs []json.RawMessage) bool {
-	for _, o := range outs {
-		if core.CanonEqual(out, o) {
-			return true
-		}
-	}
-	// a panic is compared by site only
-	var r struct {
+// c05Norm maps every way the merge step can fail — "cannot override", "<path>: unexpected type …" (the special mergers,
+// errors since C04's repairs), or a panic in override.* — to one class: *which* of several failing attributes is reported first depends on Go's map order
+// inside mergeMappings (that is C04's concern, where the alternatives are enumerated); a panic elsewhere keeps its site.
+func c05Norm(out json.RawMessage) json.RawMessage {
+	var m struct {
+		Err   *string `json:"err"`
 		Panic *string `json:"panic"`
 	}
-	if json.Unmarshal(out, &r) == nil && r.Panic != nil {
-		for _, o := range outs {
-			var d struct {
-				Panic *string `json:"panic"`
-			}
-			if json.Unmarshal(o, &d) == nil && d.Panic != nil && *d.Panic == *r.Panic {
-				return true
-			}
+	if json.Unmarshal(out, &m) != nil {
+		return out
+	}
+	switch {
+	case m.Err != nil && (*m.Err == "cannotOverride" || *m.Err == "unexpectedType"), m.Panic != nil && strings.HasPrefix(*m.Panic, "override."):
+		return json.RawMessage(`{"fail":"merge"}`)
+	case m.Err != nil && *m.Err == "loadErr", m.Panic != nil && !strings.HasPrefix(*m.Panic, "loader."):
+		// loading an extended file failed (yaml, interpolation, canonical form, path resolution): with two
+		// malformed attributes in one file, which of them is reported — an error or a panic of a transformer —
+		// depends on Go's map order inside that stage; file loading is the parameter of the extends model
+		return json.RawMessage(`{"fail":"load"}`)
+	case m.Panic != nil:
+		b, _ := json.Marshal(map[string]string{"panic": *m.Panic})
+		return b
+	}
+	return out
+}
+
+func c05MemberOf(out json.RawMessage, outs []json.RawMessage) bool {
+	n := c05Norm(out)
+	for _, o := range outs {
+		if core.CanonEqual(n, c05Norm(o)) {
+			return true
 		}
 	}
 	return false
@@ -353,11 +377,6 @@ func judgeC05Apply(args, real, drv json.RawMessage) *core.Verdict {
 	}
 	if json.Unmarshal(drv, &d) != nil || len(d.Outs) == 0 {
 		return core.Disagree("malformed driver outcome: " + string(drv))
-	}
-	for _, o := range d.Outs {
-		if strings.Contains(string(o), `"err":"special"`) {
-			return core.Skip("attribute with a special merge rule")
-		}
 	}
 	if !c05MemberOf(r.Out, d.Outs) {
 		return core.Disagree("ApplyExtends outcome is not an outcome of Extends.applyExtendsOrd under any visit order")
@@ -532,14 +551,22 @@ func init() {
 		Real:     realC05Extend,
 		DriverOp: "c05.extend",
 		Judge: func(args, real, drv json.RawMessage) *core.Verdict {
-			if strings.Contains(string(drv), `"err":"special"`) {
-				return core.Skip("special rule")
+			if c := core.Class(real); c == "fatal" || c == "hang" {
+				return core.Disagree("ExtendService died: " + string(real))
 			}
-			if c := core.Class(real); c == "panic" || c == "fatal" || c == "hang" {
-				return core.Disagree("ExtendService crashed on a rule-free input: " + string(real))
+			var d struct {
+				Full  json.RawMessage `json:"full"`
+				Plain json.RawMessage `json:"plain"`
 			}
-			if !core.CanonEqual(real, drv) {
-				return core.Disagree("Extends.plainExtend ≠ override.ExtendService")
+			if json.Unmarshal(drv, &d) != nil || d.Full == nil || d.Plain == nil {
+				return core.Disagree("malformed driver outcome: " + string(drv))
+			}
+			if !core.CanonEqual(c05Norm(real), c05Norm(d.Full)) {
+				return core.Disagree("Extends.mergeExtend (CV.Merge.extendService) ≠ override.ExtendService")
+			}
+			// the rule-free merge of Model/Extends.lean agrees with the full model wherever it is defined
+			if !strings.Contains(string(d.Plain), `"err":"special"`) && !core.CanonEqual(c05Norm(d.Plain), c05Norm(d.Full)) {
+				return core.Disagree("Extends.plainExtend ≠ Extends.mergeExtend on a rule-free input")
 			}
 			return nil
 		},
